@@ -261,8 +261,11 @@ func (p *Program) resolveRenames() {
 	resolved := map[string]bool{}
 	// rounds 0..3: same receiver type (modulo renames); rounds 4..5: a method whose receiver was
 	// dropped (a method -> function conversion keeps the parameter list only if the receiver was unused)
-	for round := 0; round < 6; round++ {
-		dropped := round >= 4
+	// rounds 6..7: same (short) name with a changed receiver or parameter list — a method that became a
+	// function taking what it used of its receiver as a parameter, or the reverse
+	for round := 0; round < 8; round++ {
+		dropped := round >= 4 && round < 6
+		sameName := round >= 6
 		progress := false
 		for _, id := range missing {
 			if resolved[id] {
@@ -282,14 +285,20 @@ func (p *Program) resolveRenames() {
 					continue
 				}
 				fp := fingerprintOf(cand.Fn, cand.Body)
-				if normNew(fp.Pkg, fp.Sig) != wSig {
-					continue
-				}
-				if !dropped && normNew(fp.Pkg, fp.Recv) != wRecv {
-					continue
-				}
-				if dropped && fp.Recv != "" {
-					continue
+				if sameName {
+					if shortName(cand.ID) != shortName(id) {
+						continue
+					}
+				} else {
+					if normNew(fp.Pkg, fp.Sig) != wSig {
+						continue
+					}
+					if !dropped && normNew(fp.Pkg, fp.Recv) != wRecv {
+						continue
+					}
+					if dropped && fp.Recv != "" {
+						continue
+					}
 				}
 				callees := make([]string, len(fp.Callees))
 				for j, c := range fp.Callees {
@@ -322,10 +331,16 @@ func (p *Program) resolveRenames() {
 				p.Renames = append(p.Renames, fmt.Sprintf("%s is now %s (callee similarity %.2f)", id, best.ID, min(bestScore, 1.0)))
 			}
 		}
-		if !progress && round < 3 {
-			round = 3 // go on with the receiver-dropped rounds
-		} else if !progress {
-			break
+		if !progress {
+			// go on with the next kind of round
+			switch {
+			case round < 3:
+				round = 3
+			case round < 5:
+				round = 5
+			default:
+				round = 8
+			}
 		}
 	}
 }
